@@ -733,4 +733,100 @@ theorem runB_ok_sends (drain : Bool) (es : List EvB) : ∀ (sb sb' : StB) (o : L
           · simp only [toEvs, run_cons]; rw [i1]
           · simp only [toEvs, run_cons]; exact i2
 
+/-! ### incarnations of one request id -/
+
+/-- an instance that neither registers nor is cancelled in `es` stays unregistered, live, and receives nothing -/
+theorem fresh_phase (h : Nat) (es : List Ev) : ∀ st,
+    (∀ r', st.reg r' ≠ some h) → st.done h = false → (∀ r', Ev.register h r' ∉ es) → Ev.cancel h ∉ es →
+    (∀ r', (run st es).1.reg r' ≠ some h) ∧ (run st es).1.done h = false ∧ deliv (run st es).2 h = [] := by
+  induction es with
+  | nil => intro st h1 h2 _ _; simp [run, h1, h2]
+  | cons e es ih =>
+    intro st h1 h2 h3 h4
+    have h3' : ∀ r', Ev.register h r' ∉ es := fun r' hm => h3 r' (List.mem_cons_of_mem _ hm)
+    have h4' : Ev.cancel h ∉ es := fun hm => h4 (List.mem_cons_of_mem _ hm)
+    rw [run_cons]
+    simp only [deliv_append]
+    cases e with
+    | arrive s =>
+      cases hr : st.reg s.rid with
+      | some h0 =>
+        have hne : h0 ≠ h := fun hh => h1 s.rid (by rw [hr, hh])
+        by_cases hd : st.done h0 = true
+        · rw [step_arrive_done hr hd]; simpa using ih st h1 h2 h3' h4'
+        · rw [step_arrive_live hr hd]
+          have := ih st h1 h2 h3' h4'
+          refine ⟨this.1, this.2.1, ?_⟩
+          rw [this.2.2]
+          simp [deliv, hne]
+      | none =>
+        rw [step_arrive_none hr]
+        simpa using ih { st with buf := upd st.buf s.rid (st.buf s.rid ++ [s]) } h1 h2 h3' h4'
+    | register h0 r0 =>
+      have hne : h0 ≠ h := fun hh => h3 r0 (by rw [hh]; simp)
+      have := ih (step st (.register h0 r0)).1
+        (by intro r'; by_cases hrr : r' = r0
+            · simp [step, upd, hrr]; exact hne
+            · simp [step, upd, hrr]; exact h1 r')
+        (by simp [step, h2]) h3' h4'
+      refine ⟨this.1, this.2.1, ?_⟩
+      rw [this.2.2]
+      by_cases hd : st.done h0 = true
+      · simp [step, hd]
+      · simp only [step, hd, Bool.false_eq_true, if_false, List.append_nil]
+        induction st.buf r0 with
+        | nil => rfl
+        | cons a l ihl => simp [deliv, hne] at ihl ⊢
+    | cancel h0 =>
+      have hne : h0 ≠ h := fun hh => h4 (by rw [hh]; simp)
+      have hne' : h ≠ h0 := fun hh => hne hh.symm
+      simpa [step] using ih (step st (.cancel h0)).1 (by simpa [step] using h1) (by simp [step, hne', h2]) h3' h4'
+    | watchdog =>
+      simpa [step] using ih (step st .watchdog).1
+        (by intro r'; simp only [step]; by_cases hg : gone st r' = true
+            · simp [hg]
+            · simp [hg]; exact h1 r')
+        (by simp [step, h2]) h3' h4'
+    | other => simpa [step] using ih st h1 h2 h3' h4'
+
+/-- whatever happens, the buffer of a request id holds only shares that arrived for it, in arrival order -/
+theorem buf_sublist (r : Rid) (es : List Ev) : ∀ st,
+    ((run st es).1.buf r).Sublist (st.buf r ++ arrivalsFor r es) := by
+  induction es with
+  | nil => intro st; simp [run, arrivalsFor]
+  | cons e es ih =>
+    intro st
+    rw [run_cons]
+    cases e with
+    | arrive s =>
+      cases hr : st.reg s.rid with
+      | some h0 =>
+        have hst : (step st (.arrive s)).1 = st := by by_cases hd : st.done h0 <;> simp [step, hr, hd]
+        rw [hst]
+        refine (ih st).trans ?_
+        by_cases hs : s.rid = r
+        · simp only [arrivalsFor, hs, if_true]
+          exact List.Sublist.append_left (List.sublist_cons_self _ _) _
+        · simp [arrivalsFor, hs]
+      | none =>
+        rw [step_arrive_none hr]
+        refine (ih _).trans ?_
+        by_cases hs : s.rid = r
+        · subst hs; simp [arrivalsFor, upd]
+        · have : r ≠ s.rid := fun hh => hs hh.symm
+          simp [arrivalsFor, hs, upd, this]
+    | register h0 r0 =>
+      refine (ih _).trans ?_
+      by_cases hrr : r = r0
+      · subst hrr; simp [step, upd, arrivalsFor]
+      · simp [step, upd, hrr, arrivalsFor]
+    | cancel h0 => simpa [step, arrivalsFor] using ih (step st (.cancel h0)).1
+    | watchdog =>
+      refine (ih _).trans ?_
+      simp only [step, arrivalsFor]
+      by_cases hg : gone st r = true
+      · simp [hg]
+      · simp [hg]
+    | other => simpa [step, arrivalsFor] using ih st
+
 end Dos.Collector
